@@ -38,7 +38,7 @@ m = {
     "engines": [
         {"name": "lean4-model+rust-harness", "path": "/verif/lean , /verif/harness , /verif/tools/check.py",
          "serves_properties": sorted(p for p in PROPS if p not in NOT_APPLICABLE),
-         "kind_free_text": "Lean 4 model (one def per Rust fn) + spec + theorems; constants, inventories and a Lean translation of 110 source functions (tools/rs2lean.py; proved per run equal to a committed baseline translation, which is proved equal to the model) regenerated from /repo/src each run; native model driver compared line by line with a Rust harness calling the real crate (path dependency on /repo)"},
+         "kind_free_text": "Lean 4 model (one def per Rust fn) + spec + theorems; constants, inventories and a Lean translation of 131 source functions (tools/rs2lean.py; proved per run equal to a committed baseline translation, which is proved equal to the model) regenerated from /repo/src each run; native model driver compared line by line with a Rust harness calling the real crate (path dependency on /repo)"},
     ],
     "checks": checks,
     "notes": NOTES,
